@@ -4,7 +4,7 @@ from harness import c09 as C9
 from spec import enc
 from spec import elf_layout as L
 from spec import relocs as R
-from harness.elfkit import Image, stream_length, elf_object, shdr
+from harness.elfkit import Image, stream_length, elf_object, shdr, open_elf
 
 PROPERTY = 'C08'
 ASSUMPTIONS = [
@@ -360,7 +360,7 @@ def h_plumbing(ctx):
     for name in sorted(idx, key=idx.get):
         assert defs[name]() == idx[name]
     img.add_shstrtab()
-    elf = EF.ELFFile(ctx.stream(img.build()))
+    elf = open_elf(ctx, img.build())
     if cfg.get('history'):
         # an earlier request with the opposite setting (a tool that first looks at the raw sections, then at the relocated ones,
         # or the other way round): each call answers for its own arguments
